@@ -125,6 +125,29 @@ CHECKS = {
         "transparency gives per-operation equality; operations themselves are the pure functions of C01-C04. The file not changing during a transaction is C06.",
    technique="Coq proof (cache-coherence invariant by induction over histories) + history differential vs real SQLite",
    design="DESIGN.md section 6, C08"),
+ "C06": dict(
+   text="Coq: a transition system of the kernel's record-lock table for SQLite's three lock regions, any number of sqlittle handles stepping through filePager.RLock's three fcntl calls / "
+        "page reads / RUnlock / Close and any number of SQLite connections stepping through unixLock / unixUnlock, one system call per step, EVERY interleaving (C06_invariant): what "
+        "each process holds is determined by its actor's state (C06_holds_and_releases: exactly the shared range between RLock and RUnlock; nothing after RUnlock, a failed RLock or "
+        "Close), and while a handle can read pages no connection of another process is in EXCLUSIVE, the only state in which the file is written (C06_no_writer_while_reading). The lock "
+        "byte offsets and the order of RLock's calls are regenerated from db/pager.go / pager_unix.go on every run and proved equal to SQLite's (C06_lock_bytes). Every run, on a real "
+        "file with real POSIX locks: every entry point x exit path (end, early stop, callback panic, errors) with another process probing (F_GETLK) and a real SQLite writer trying to "
+        "COMMIT during the callback and after the return; expected rows from the extracted model.",
+   note="PARTIAL by nature: the kernel's lock semantics (per-process ownership, close drops all, F_SETLK never blocks) are the model's transition rules, validated by the probes, not proved; "
+        "NFS and the Windows pager are not modelled. The theorems assume one actor per process; that this is necessary is proved (C06_same_process_*_refuted) and is the known finding "
+        "(two handles of one process).",
+   technique="Coq proof (invariant over all interleavings of the lock protocol LTS) + translated constants + real-process lock probes",
+   design="DESIGN.md section 6, C06"),
+ "C07": dict(
+   text="Coq (same transition system): a connection in PENDING or EXCLUSIVE makes RLock fail at its first system call - the handle stays idle, reads no page (C07_pending_excl); connections "
+        "holding at most RESERVED do not keep the reader out (C07_reserved_admits) and the file cannot be written while it reads (C07_no_writer_while_reading); a journal that looks hot "
+        "while RESERVED is live does not stop the read (C07_reserved_journal_ok, on the handle state machine of C08); the pending byte is requested before the shared range "
+        "(C07_order, from the translated source). Every run: a real SQLite connection parked in UNLOCKED, SHARED, RESERVED, RESERVED with the journal header on disk, PENDING, EXCLUSIVE, "
+        "EXCLUSIVE with spilled pages - the lock table confirmed by a third process and predicted by the extracted model - and every read operation on a fresh and on a long-lived handle "
+        "with stale caches; plus a writer that starts and tries to spill while a read is inside its callback.",
+   note="PARTIAL: SQLite's unix VFS lock ladder is transcribed into the model's connection steps and validated in every state, not proved; CheckReservedLock cannot see a RESERVED lock of the reader's own process.",
+   technique="Coq proof (lock protocol LTS) + real SQLite connections parked in every lock state",
+   design="DESIGN.md section 6, C07"),
 }
 
 NOT_YET = {}
